@@ -230,9 +230,15 @@ def run(c):
             for x in recs[:pos or 0]:
                 if x["e"] == "hist":
                     hist = x
+            badrec = recs[pos - 1] if pos and pos <= len(recs) else None
+            if badrec and badrec.get("e") == "layout":
+                w, rr = badrec["w"], badrec["r"]
+                i = next((i for i in range(min(len(w), len(rr))) if w[i] != rr[i]), min(len(w), len(rr)))
+                badrec = {"e": "layout", "first_difference_at_run": i, "written [class,size,count]": w[max(0, i - 2):i + 3],
+                          "read": rr[max(0, i - 2):i + 3], "runs_written": len(w), "runs_read": len(rr)}
             c.violation("restart:%s:config=%s" % (st, name),
                         "histories of configuration %s violate Layer A (%s) at record %s of history %s" % (
-                            name, st, recs[pos - 1] if pos and pos <= len(recs) else None, hist),
+                            name, st, badrec, hist),
                         {"trace": keep, "history": hist, "commands": [i for i in info if hist and i[0] == hist["h"]]})
         if name == "dyadic":
             c.sample({"configuration": name, "records": recs[:10]})
